@@ -162,6 +162,7 @@ pub fn decode_vec<const N: usize>(base38_str: &str) -> Result<heapless::Vec<u8, 
 /// Fails if the string contains invalid characters or if the supplied buffer is too small to fit the decoded data
 pub fn decode(base38_str: &str) -> impl Iterator<Item = Result<u8, Error>> + '_ {
     let stru = base38_str.as_bytes();
+    let mut failed = false;
 
     (0..stru.len() / 5)
         .flat_map(move |index| {
@@ -172,22 +173,28 @@ pub fn decode(base38_str: &str) -> impl Iterator<Item = Result<u8, Error>> + '_ 
             let offset = stru.len() / 5 * 5;
             decode_base38(&stru[offset..])
         })
-        .take_while(Result::is_ok)
+        // Yield the first error (if any) and stop right after it
+        .take_while(move |result| {
+            let proceed = !failed;
+            failed = result.is_err();
+            proceed
+        })
 }
 
 fn decode_base38(chars: &[u8]) -> impl Iterator<Item = Result<u8, Error>> {
     let mut value = 0u32;
     let mut cerr = None;
 
-    let repeat = match chars.len() {
-        5 => 3,
-        4 => 2,
-        2 => 1,
-        0 => 0,
-        _ => -1,
+    // A chunk of an invalid length still yields one item: the error
+    let (repeat, valid_len) = match chars.len() {
+        5 => (3, true),
+        4 => (2, true),
+        2 => (1, true),
+        0 => (0, true),
+        _ => (1, false),
     };
 
-    if repeat >= 0 {
+    if valid_len {
         for c in chars.iter().rev() {
             match decode_char(*c) {
                 Ok(v) => value = value * RADIX + v as u32,
@@ -197,23 +204,26 @@ fn decode_base38(chars: &[u8]) -> impl Iterator<Item = Result<u8, Error>> {
                 }
             }
         }
+
+        // The value of the chunk must fit in the bytes the chunk stands for
+        if cerr.is_none() && value >> (8 * repeat) != 0 {
+            cerr = Some(ErrorCode::InvalidData);
+        }
     } else {
         cerr = Some(ErrorCode::InvalidData)
     }
 
-    (0..repeat)
-        .map(move |_| {
-            if let Some(err) = cerr {
-                Err(err.into())
-            } else {
-                let byte = (value & 0xff) as u8;
+    (0..repeat).map(move |_| {
+        if let Some(err) = cerr {
+            Err(err.into())
+        } else {
+            let byte = (value & 0xff) as u8;
 
-                value >>= 8;
+            value >>= 8;
 
-                Ok(byte)
-            }
-        })
-        .take_while(Result::is_ok)
+            Ok(byte)
+        }
+    })
 }
 
 fn decode_char(c: u8) -> Result<u8, Error> {
@@ -243,6 +253,24 @@ mod tests {
             unwrap!(encode_string::<{ ENCODED.len() }>(&DECODED)),
             ENCODED
         );
+    }
+
+    #[test]
+    fn base38_decode_rejects_malformed_input() {
+        // A character outside the alphabet
+        assert!(decode_vec::<16>("00!00").is_err());
+        assert!(decode_vec::<16>("0000000a").is_err());
+        // A trailing chunk of 1 or 3 characters
+        assert!(decode_vec::<16>("0").is_err());
+        assert!(decode_vec::<16>("00000000").is_err());
+        // Chunks whose value does not fit in 3, 2 and 1 bytes
+        assert!(decode_vec::<16>("ZZZZZ").is_err());
+        assert!(decode_vec::<16>("....").is_err());
+        assert!(decode_vec::<16>("..").is_err());
+        // The largest chunks that do fit
+        assert_eq!(unwrap!(decode_vec::<16>("PLS18")), [0xff, 0xff, 0xff]);
+        assert_eq!(unwrap!(decode_vec::<16>("NE71")), [0xff, 0xff]);
+        assert_eq!(unwrap!(decode_vec::<16>("R6")), [0xff]);
     }
 
     #[test]
